@@ -640,7 +640,7 @@ func run(c *core.Ctx) {
 			x.cancel()
 			continue
 		}
-		c.Fail("HARNESS.stuck", "no event to inject but actors are not done: %s", c.S.StalledString())
+		c.Stuck("no event to inject but actors are not done: %s", c.S.StalledString())
 		return
 	}
 	// final drain
